@@ -382,6 +382,12 @@ def descs_search(S, salt, count, big=False):
                 for val in (1, 2, 3, 4):
                     for q in ("bfs", "dfsr", "dfsi"):
                         yield desc(q, (s, val), M=M, attr=attr)
+            # a start vertex OUTSIDE the universe, sought for the very value it carries: whatever the call does (the
+            # searches raise), "a vertex outside the universe is never returned"
+            outside = [v for v in range(1, n + 1) if M != (-1,) and v not in M and attr[v - 1]]
+            for s in outside[:1]:
+                for q in ("bfs", "dfsr", "dfsi"):
+                    yield desc(q, (s, attr[s - 1]), M=M, attr=attr)
 
 
 CACHE_KEYS_QUICK = [(0, 0, NOF), (1, 0, NOF), (0, 1, NOF), (1, 1, NOF), (2, 1, NOF), (1, 2, NOF), (0, 2, NOF),
